@@ -98,4 +98,21 @@ NOTES['C17'] = {'technique': 'Lean 4 proof (ring capacity/refusal/slot arithmeti
             'Tie: UNIT-ring exact; CONC-ring (real recorders vs draining consumer, stripe creation/expansion under contention): no invention, at most once, capacity, delivery at quiescence; independence of results: SEQ is exact against a Spec without any read buffer.',
     'note': 'Trusted: Lean kernel; skeleton extractor; Go scheduler for CONC-ring. PARTIAL: the concurrent invariant (all interleavings of recorders with the consumer, striped table expansion) is not mechanised; sync.Pool token reuse is runtime behaviour.'}
 
+_CONC_NOTE = ('Trusted: Lean kernel; skeleton extractor; the Lean judges (executable, not themselves verified); the Go scheduler (schedules are sampled, not enumerated); atomics sequentially consistent, mutex exclusion. ')
+NOTES['C02'] = {'technique': 'Lean 4 proof (per-key atomic-step semantics, commutation across keys) + skeleton equality + exact linearizability judgement of recorded concurrent histories',
+    'engine': 'proof+gen-skeleton+conc-lin',
+    'text': 'Theorems: a write step changes no other key; writes to different keys commute on the abstraction; the compute step acts on exactly the state at its point. Structural obligations: skeletons of hashmap Get/Compute/resize/copyBucket* (Props.C15). '
+            'Tie: CONC-lin on the real cache (all key-value operations incl. Compute*/SetIfAbsent, evicting and unbounded, table growing and shrinking): per-key linearizability decided exactly from in-critical-section stamps; callback ran once.',
+    'note': _CONC_NOTE + 'PARTIAL: linearizability over all schedules is not a theorem about the code; it is decided for every recorded history. The parallel bucket copy of resize and sync.Cond waiting are exercised, not modelled.'}
+NOTES['C15'] = {'technique': 'Lean 4 proof (finite-map laws of the specification, SWAR meta-byte facts over regenerated code) + skeleton equality of the table functions + exact linearizability judgement + sequential correspondence through the cache',
+    'engine': 'proof+gen-skeleton+conc-lin+seq',
+    'text': 'Theorems: read-your-write/frame/delete/distinct-keys laws; the stored 7-bit hash fragment is always below the empty marker 0x80; empty meta = broadcast(0x80). Skeletons of Get/Compute/resize/copyBucket/copyBucketWithDestLock/Range/waitForResize equal the snapshot. '
+            'Tie: CONC-lin on the table alone with growth and shrink forced by side keys: per-key linearizability, callbacks once, Size = keys = Range at quiescence; SEQ: iteration yields exactly the live entries once.',
+    'note': _CONC_NOTE + 'PARTIAL: no mechanised model of bucket chains, SWAR search and cooperative resize; heavy in-bucket collisions are produced only by chance (maphash is seeded per table).'}
+NOTES['C08'] = {'technique': 'Lean 4 proof (registration/completion rules of the single-flight specification) + skeleton equality + concurrent single-flight judge + sequential correspondence with hang watchdog',
+    'engine': 'proof+gen-skeleton+conc-flight+seq',
+    'text': 'Theorems for every state and outcome (value, error, not-found, panic): a second registration is refused; completion unregisters the call; a later Get registers afresh. Skeletons of startCall/deleteCall/delete/doCall/doBulkCall/afterDeleteCall equal the snapshot. '
+            'Tie: CONC-flight (real callers joining blocked loads: no overlapping executions, one execution per successful load, joined callers get the outcome, no in-flight record left, nobody hangs); SEQ load profile incl. panics in the load part of a bulk refresh (F12).',
+    'note': _CONC_NOTE + 'PARTIAL: sync.WaitGroup and panics crossing goroutines are runtime behaviour; a panic in a reload on the default executor terminates the process by design and is excluded.'}
+
 NOT_APPLICABLE = {}
